@@ -8,17 +8,20 @@ class CFGVariableConverter:
 
     def __init__(self, states, stack_symbols):
         self._counter = 0
+        # The indexes cached on the states and symbols are only valid for
+        # the converter which wrote them: they are stored with this token
+        self._token = object()
         self._inverse_states_d = {}
         self._counter_state = 0
         for self._counter_state, state in enumerate(states):
             self._inverse_states_d[state] = self._counter_state
-            state.index_cfg_converter = self._counter_state
+            state.index_cfg_converter = (self._token, self._counter_state)
         self._counter_state += 1
         self._inverse_stack_symbol_d = {}
         self._counter_symbol = 0
         for self._counter_symbol, symbol in enumerate(stack_symbols):
             self._inverse_stack_symbol_d[symbol] = self._counter_symbol
-            symbol.index_cfg_converter = self._counter_symbol
+            symbol.index_cfg_converter = (self._token, self._counter_symbol)
         self._counter_symbol += 1
         self._conversions = [[[(False, None) for _ in range(len(states))]
                               for _ in range(len(stack_symbols))] for _ in
@@ -26,29 +29,33 @@ class CFGVariableConverter:
 
     def _get_state_index(self, state):
         """Get the state index"""
-        if state.index_cfg_converter is None:
+        cached = state.index_cfg_converter
+        if cached is None or cached[0] is not self._token:
             self._set_index_state(state)
-        return state.index_cfg_converter
+        return state.index_cfg_converter[1]
 
     def _set_index_state(self, state):
         """Set the state index"""
         if state not in self._inverse_states_d:
             self._inverse_states_d[state] = self._counter_state
             self._counter_state += 1
-        state.index_cfg_converter = self._inverse_states_d[state]
+        state.index_cfg_converter = (self._token,
+                                     self._inverse_states_d[state])
 
     def _get_symbol_index(self, symbol):
         """Get the symbol index"""
-        if symbol.index_cfg_converter is None:
+        cached = symbol.index_cfg_converter
+        if cached is None or cached[0] is not self._token:
             self._set_index_symbol(symbol)
-        return symbol.index_cfg_converter
+        return symbol.index_cfg_converter[1]
 
     def _set_index_symbol(self, symbol):
         """ Set the symbol index """
         if symbol not in self._inverse_stack_symbol_d:
             self._inverse_stack_symbol_d[symbol] = self._counter_symbol
             self._counter_symbol += 1
-        symbol.index_cfg_converter = self._inverse_stack_symbol_d[symbol]
+        symbol.index_cfg_converter = (self._token,
+                                      self._inverse_stack_symbol_d[symbol])
 
     def to_cfg_combined_variable(self, state0, stack_symbol, state1):
         """ Conversion used in the to_pda method """
